@@ -16,7 +16,7 @@ FUNCTIONS = ["DefaultArgsParser.parse (+ all helpers)", "Args.arguments/options/
              "Option.parse / Argument.parse", "ArgsFormat.get_option/get_argument/has_*", "utils.string.parse_*"]
 PART = {}
 BOUNDS = {"quick": "8 format skeletons (value mode x type x nullable x short name, required/optional/multi-valued typed arguments, 2 command names with aliases, base format); "
-                   "<= 3 options given, values = 1-2 symbolic characters over {a,1,=,-,space} or str(n) for |n| <= 99 or boolean/null texts, 4 spellings, options inserted at a symbolic place among <= 3 positionals, "
+                   "<= 3 options given, values = 1-2 symbolic characters over {a,1,=,-,space} or str(n) for |n| <= 12 (quick) / 99 (thorough) or boolean/float/null texts, 4 spellings, options inserted at a symbolic place among <= 3 positionals, "
                    "command names spelled by name / alias / omitted, optional '--' followed by 1 token that may start with '-', strict and lenient",
           "thorough": "same with larger budgets, two different places for the options, 2 tail tokens"}
 OUTSIDE = ["formats with 4-5 options or 4 arguments", "values longer than 2 characters, non-ASCII values", "all options share one spelling style and one (quick) or two (thorough) insertion places per line",
@@ -74,20 +74,50 @@ def _typed(o_typ, nullable, s, n, bi, usenull):
     return s, s
 
 
-def line(given: int, sp: int, place: int, place2: int, s: str, n: int, bi: int, usenull: bool, novalue: bool,
-         npos: int, p1: str, p2: str, n2: int, cmd: int, dd: int, tail: str, tail2: str, lenient: bool) -> bool:
+def _dims():
+    skel = pfmt.SKELS[PART["skel"]]
+    nopts = min(3, len(skel.all_opts))
+    has_multi = any(a.kind.startswith("multi") for a in skel.all_args)
+    maxpos = len(skel.all_args) + (1 if has_multi else 0)
+    return {"nopts": nopts, "maxpos": maxpos, "cmds": bool(skel.all_cmds),
+            "optmode": any(o.mode == "opt" for o in skel.all_opts[:3]), "nullable": any(o.nullable for o in skel.all_opts[:3]),
+            "bi": any(o.typ in ("bool", "float") for o in skel.all_opts[:3]) or any(a.typ in ("bool", "float") for a in skel.all_args),
+            "int": any(o.typ == "int" for o in skel.all_opts[:3]), "intarg": any(a.typ == "int" for a in skel.all_args)}
+
+
+def line_structure(given: int, place: int, place2: int, novalue: bool, npos: int, cmd: int, dd: int, lenient: bool) -> bool:
     """
-    pre: 0 <= given < 8 and 0 <= sp <= 3 and 0 <= place <= 3 and 0 <= place2 <= 3 and 0 <= bi < 6
-    pre: 1 <= len(s) <= 2 and all(c in VAL_ALPHA for c in s)
-    pre: -99 <= n <= 99 and -99 <= n2 <= 99
-    pre: 0 <= npos <= 3 and 0 <= cmd <= 3 and 0 <= dd <= 2
-    pre: 1 <= len(p1) <= 2 and len(p2) <= 2 and all(c in "a1=" for c in p1) and all(c in "a1= " for c in p2)
-    pre: len(tail) <= 2 and all(c in "a-=" for c in tail) and len(tail2) <= 1 and all(c in "a-" for c in tail2)
-    pre: PART.get("sp") is None or sp == PART["sp"]
+    pre: 0 <= given < 2 ** _dims()["nopts"]
+    pre: 0 <= npos <= _dims()["maxpos"]
+    pre: 0 <= place <= npos and 0 <= place2 <= npos
     pre: PART.get("two_places") or place2 == place
-    pre: PART.get("tail2") or tail2 == ""
+    pre: 0 <= cmd <= (3 if _dims()["cmds"] else 0)
+    pre: 0 <= dd <= 2
+    pre: _dims()["optmode"] or not novalue
     post: _
     """
+    return _line(given, PART["sp"], place, place2, "a", 5, 0, False, novalue, npos, "1", "a=", 7, cmd, dd, "-a", "", lenient)
+
+
+def line_values(s: str, n: int, bi: int, usenull: bool, p1: str, p2: str, n2: int, tail: str, tail2: str, lenient: bool) -> bool:
+    """
+    pre: 1 <= len(s) <= 2 and all(c in VAL_ALPHA for c in s)
+    pre: (-PART.get("nmax", 12) <= n <= PART.get("nmax", 12)) if _dims()["int"] else n == 0
+    pre: (-PART.get("nmax", 12) <= n2 <= PART.get("nmax", 12)) if _dims()["intarg"] else n2 == 0
+    pre: (0 <= bi < 6) if _dims()["bi"] else bi == 0
+    pre: _dims()["nullable"] or not usenull
+    pre: 1 <= len(p1) <= 2 and all(c in "a1=" for c in p1)
+    pre: (len(p2) <= 2 and all(c in "a1= " for c in p2)) if _dims()["maxpos"] >= 2 else p2 == ""
+    pre: len(tail) <= 2 and all(c in "a-=" for c in tail)
+    pre: (len(tail2) <= 1 and all(c in "a-" for c in tail2)) if PART.get("tail2") else tail2 == ""
+    post: _
+    """
+    d = _dims()
+    npos = d["maxpos"]
+    return _line(2 ** d["nopts"] - 1, PART["sp"], min(1, npos), min(1, npos), s, n, bi, usenull, False, npos, p1, p2, n2, 0, 2 if npos > 0 else 1, tail if npos > 0 else "", tail2, lenient)
+
+
+def _line(given, sp, place, place2, s, n, bi, usenull, novalue, npos, p1, p2, n2, cmd, dd, tail, tail2, lenient):
     skel = pfmt.SKELS[PART["skel"]]
     opts, args, cmds = skel.all_opts, skel.all_args, skel.all_cmds
     sp = _conc_small(sp, 4)
@@ -95,6 +125,7 @@ def line(given: int, sp: int, place: int, place2: int, s: str, n: int, bi: int, 
     # ---- the assignment
     exp_opts = {}
     groups = []           # (place, tokens)
+    multi_order = []
     trailing = []         # an optional-value option given without a value goes last
     for i, o in enumerate(opts[:3]):
         if not (given >> i) & 1:
@@ -112,7 +143,7 @@ def line(given: int, sp: int, place: int, place2: int, s: str, n: int, bi: int, 
             continue
         if o.mode == "multi":
             text2, val2 = _typed(o.typ, o.nullable, "a" + s[:1], n + 1, bi, False)
-            exp_opts[o.long] = [val, val2]
+            multi_order.append((o.long, place, val, place2, val2))
             groups.append((place, _spell(o, sp, text)))
             groups.append((place2, _spell(o, (sp + 1) % 4, text2) if not (_separate(o, (sp + 1) % 4) and text2[0] == "-") else _spell(o, 0, text2)))
             continue
@@ -159,6 +190,8 @@ def line(given: int, sp: int, place: int, place2: int, s: str, n: int, bi: int, 
     for j, t in enumerate(texts[:n_before]):
         if t[:1] == "-":
             return True                      # a positional before '--' that starts with '-' is an option by definition
+    for long, pl1, v1, pl2, v2 in multi_order:      # multi-values are reported in command-line order
+        exp_opts[long] = [v1, v2] if min(pl1, n_before) <= min(pl2, n_before) else [v2, v1]
     extra_tail = []
     if use_dd and has_multi and tail2 != "" and npos >= 1:
         # one more arbitrary token after '--' goes to the multi-valued argument
@@ -230,30 +263,31 @@ def pfmt_parse(o, text):
     return {"int": int, "float": float, "str": str, "bool": lambda t: t in ("true", "1", "yes", "on")}[o.typ](text)
 
 
-def line_twin(given: int, sp: int, place: int, place2: int, s: str, n: int, bi: int, usenull: bool, novalue: bool,
-              npos: int, p1: str, p2: str, n2: int, cmd: int, dd: int, tail: str, tail2: str, lenient: bool) -> bool:
+def line_twin(s: str, n: int, bi: int, usenull: bool, p1: str, p2: str, n2: int, tail: str, tail2: str, lenient: bool) -> bool:
     """
-    pre: given == 3 and sp == 3 and place == 1 and place2 == 1 and bi == 0
     pre: len(s) == 1 and all(c in VAL_ALPHA for c in s)
-    pre: n == 0 and n2 == 0 and npos == 2 and cmd == 0 and dd == 2
+    pre: n == 0 and n2 == 0 and bi == 0 and not usenull
     pre: len(p1) == 1 and len(p2) == 1 and all(c in "a1=" for c in p1) and all(c in "a1= " for c in p2)
     pre: len(tail) == 2 and all(c in "a-=" for c in tail) and tail2 == ""
     post: _
     """
     # reachability twin on S1: a line with both options, two positionals and an option-like tail really gets through to the comparison
-    ok = line(given, sp, place, place2, s, n, bi, usenull, novalue, npos, p1, p2, n2, cmd, dd, tail, tail2, lenient)
+    ok = line_values(s, n, bi, usenull, p1, p2, n2, tail, tail2, lenient)
     return not (ok and tail[0] == "-")
 
 
 def conditions(tier):
     quick = tier == "quick"
-    t = 120 if quick else 1200
+    t = 100 if quick else 1500
     conds = []
     for sk in sorted(pfmt.SKELS):
         for sp in range(4):
-            conds.append({"name": "line[%s,sp%d]" % (sk, sp), "fn": line, "timeout": t,
-                          "part": {"skel": sk, "sp": sp, "two_places": not quick, "tail2": not quick},
-                          "bounds": "format %s, spelling style %d (%s); symbolic: which options are given, values, places, positionals, command-name spelling, '--' tail, leniency" % (
-                              sk, sp, ["--n=v", "--n v", "-nv", "-n v"][sp])})
+            for fam in ("structure", "values"):
+                conds.append({"name": "line[%s,sp%d,%s]" % (sk, sp, fam), "fn": line_structure if fam == "structure" else line_values, "timeout": t,
+                              "part": {"skel": sk, "sp": sp, "two_places": not quick, "tail2": not quick, "family": fam, "nmax": 12 if quick else 99},
+                              "bounds": ("format %s, spelling style %d (%s); " % (sk, sp, ["--n=v", "--n v", "-nv", "-n v"][sp])) + (
+                                  "STRUCTURE family: symbolic = which options are given, their place(s) among the positionals, number of positionals, command-name spelling (name/alias/mixed/omitted), '--' and where, value-less optional option, leniency; values pinned"
+                                  if fam == "structure" else
+                                  "VALUES family: symbolic = option value (1-2 chars over {a,1,=,-,space}), int values in [-99,99], boolean/float/null texts, positional values, the option-like token after '--', leniency; structure pinned (all options given at place 1, all positionals, '--' before the last)")})
     conds.append({"name": "line_twin", "fn": line_twin, "timeout": t, "expect": "refute", "part": {"skel": "S1", "sp": 3}, "bounds": "reachability twin"})
     return conds
